@@ -64,6 +64,20 @@ CLAIMED = {
              "modelled. Python \\d / int() on non-ASCII digits not modelled.",
         technique="Coq proof over hand model + extracted-model correspondence + compile-and-compare oracle",
         design="4/C11"),
+    "C18": dict(
+        text="Coq theorems over an executable model of the dispatch wrapl.py generates (call variations = default-argument "
+             "prefixes, switch on argument count, first-match chain over lua_type, stack index read per argument): selection is "
+             "sound and complete (first match in declaration order, Lua error when nothing matches or the count is wrong), every "
+             "argument is read from the very slot that was type checked, after the object for methods (layout consistency, true "
+             "after fix 017af13); result count partial + refuted for mixed void/value overload sets; no-check single-variation "
+             "wrappers refuted = known findings. Tie: real wrapl output for random libraries compiled with g++ against a stub of "
+             "the Lua C API and an instrumented library, driven with matching and non-matching stacks, compared with the "
+             "extracted model; an independent oracle states the property on the observed library calls.",
+        note="Trusted: Coq kernel, extraction, harness, g++, and tools/cgen/lua (a stand-in for the Lua C API: no Lua is installed). "
+             "Modelled: dispatch and stack indexing; the lua_to*/lua_push* templates are validated by execution only. C++ overload "
+             "resolution inside a selected branch is not modelled (known finding lua-string-vs-bool-overload).",
+        technique="Coq proof over hand model + compiled-binding correspondence against a Lua API stub",
+        design="4/C18"),
 }
 
 PENDING = {}
